@@ -82,7 +82,8 @@ def case_b(draw):
         if draw(st.integers(0, 5)) == 0:
             k_ = draw(st.integers(0, len(d_["seq"])))
             d_["seq"] = d_["seq"][:k_] + d_["seq"][k_:].lower()
-    text = gen_graph.gfa_text(g, with_seq=True, extra_tags=extra, link_tags=ltags,
+    # one graph in six comes without sequences ('*' and the LN tag); --with-sequence then has nothing but '*' to write
+    text = gen_graph.gfa_text(g, with_seq=draw(st.integers(0, 5)) > 0, extra_tags=extra, link_tags=ltags,
                               order_seed=draw(st.integers(0, 999)), header=draw(st.booleans()))
     if draw(st.integers(0, 2)) == 0:
         # LN is optional when the sequence is given: drop it from some S lines
